@@ -130,6 +130,15 @@ def Op.early : Op → Bool
   | .resolve | .relocate _ => false
   | _ => true
 
+theorem inv_x86MemAbsM (s : State) (sh : AShape) (a : AddrT) (t : BitVec 64) (h : Inv s) : Inv (x86MemAbsM s sh a t).1 := by
+  unfold x86MemAbsM
+  dsimp only
+  repeat' split
+  all_goals first
+    | exact h
+    | exact h.frame (frame_emit _ _ h.cur)
+    | exact h.frame (frame_newReloc_emit s _ _ h.cur)
+
 theorem step_inv (s : State) (op : Op) (hop : op.early = true) (h : Inv s) : Inv (step s op).1 := by
   cases op with
   | newLabel => simp only [step]; exact inv_newLabel s h
@@ -298,6 +307,19 @@ theorem step_inv (s : State) (op : Op) (hop : op.early = true) (h : Inv s) : Inv
         | exact h
         | exact h.frame (frame_emit _ _ h.cur)
         | exact h.frame (frame_newReloc_emit s _ _ h.cur)
+
+  | memAbs k a t =>
+    simp only [step]
+    split
+    · exact h
+    · unfold x86MemAbs
+      cases (MKind.ashape s.arch k).moffs with
+      | none => exact inv_x86MemAbsM s _ _ _ h
+      | some mo =>
+        dsimp only
+        split
+        · exact h.frame (frame_emit _ _ h.cur)
+        · exact inv_x86MemAbsM s _ _ _ h
 
 theorem inv_init (arch : Arch) (base : BitVec 64) : Inv (State.init arch base) := by
   refine ⟨by simp [State.init], ?_, ?_, by simp [State.init], ?_, ?_, ?_, ?_⟩
